@@ -122,6 +122,7 @@ struct C10 : Scenario {
             Json ms = Json::array();
             for (int s = 0; s < o.max_steps; ++s) { Json f = Json::array(); int n = static_cast<int>(rng.range(1, 5)); for (int k = 1; k < n; ++k) f.push(static_cast<double>(k) / n); f.push(1.0); ms.push(f); }
             p["ministeps"] = ms;
+            p["continue_pick"] = static_cast<long long>(rng.chance(0.5) ? rng.range(1, 1000) : 0);      // > 0: a second run continues the base run from one of its report steps
             // simulated wall clock increments per ministep: the >= 15 s throttle of ExtSmryOutput is decided by these
             Json wa = Json::array(); int nw = static_cast<int>(rng.range(1, 6));
             int style = static_cast<int>(rng.below(4));
@@ -364,9 +365,54 @@ struct C10 : Scenario {
                         EclIO::ExtESmry x("BASE.ESMRY", false); x.loadData();
                         if (x.numberOfTimeSteps() != time.size()) r.fail("C10.run.esmry_final_incomplete", "after the final summary BASE.ESMRY holds " + std::to_string(x.numberOfTimeSteps()) + " ministeps, the summary file " + std::to_string(time.size()));
                         else for (const auto& key : x.keywordList()) { if (!a.hasKey(key)) continue; const auto& g1 = x.get(key); const auto& g2 = a.get(key); if (g1.size() != g2.size() || std::memcmp(g1.data(), g2.data(), g1.size() * 4)) { if (!fmt) { r.fail("C10.run.esmry_value", "BASE.ESMRY differs from the summary file in " + key); break; } } }
+                        // report-step positions: the legacy reader takes them from SEQHDR, the ESMRY reader from the RSTEP flags
+                        if (r.violations.empty()) {
+                            std::vector<float> want_rs; for (size_t k = 0; k < map.size(); ++k) if (!rec.sub[map[k]]) want_rs.push_back(time[k]);
+                            const auto rs_legacy = a.get_at_rstep("TIME"); const auto rs_ext = x.get_at_rstep("TIME");
+                            if (rs_legacy != want_rs) r.fail("C10.run.report_step_positions.legacy", "ESmry::get_at_rstep(TIME) gives " + std::to_string(rs_legacy.size()) + " report steps, the run wrote " + std::to_string(want_rs.size()) + " (or at other times)");
+                            else if (rs_ext != want_rs) r.fail("C10.run.report_step_positions.esmry", "ExtESmry::get_at_rstep(TIME) on the writer's ESMRY gives " + std::to_string(rs_ext.size()) + " report steps, the run wrote " + std::to_string(want_rs.size()) + " (or at other times)");
+                        }
                         ++r.counters["probe.esmry_read"];
                     } else if (r.violations.empty() && fmt) ++r.counters["probe.esmry_request_ignored_for_formatted_output"];
                     else if (r.violations.empty()) r.fail("C10.run.esmry_missing", "writeEsmry was requested but BASE.ESMRY does not exist after the final summary");
+                    // ---- a run that continues the base run: with the base-run history loaded it reads as the base run's ministeps up to the
+                    //      restart step followed by its own; checked for the legacy reader and, for unformatted output, the ESMRY reader
+                    const int last_step = w->last_step();
+                    if (r.violations.empty() && plan.geti("continue_pick", 0) > 0 && last_step >= 2) {
+                        const int n = 1 + static_cast<int>(plan.geti("continue_pick") % (last_step - 1));      // 1 .. last-1
+                        std::unique_ptr<World> B; bool built = false;
+                        try {
+                            DeckOpts dopt; dopt.restart_step = n; dopt.restart_base = "BASE"; dopt.skiprest = true;
+                            RunCfg cfgB = cfg; cfgB.base = "CONT";
+                            B = World::create(deck_text(m, dopt), cfgB, n);
+                            B->run(n + 1, last_step, nullptr);
+                            built = true;
+                        } catch (const std::exception&) { ++r.counters["probe.continuation_run_unavailable"]; }      // building a restarted run is C05's subject
+                        B.reset();
+                        if (built) {
+                            const std::string specB = std::string("CONT.") + (fmt ? "FSMSPEC" : "SMSPEC");
+                            EclIO::ESmry own(specB, false); own.loadData();
+                            EclIO::ESmry all(specB, true); all.loadData();
+                            size_t prefix = 0; for (size_t k = 0; k < map.size(); ++k) if (rec.rstep[map[k]] <= n) prefix = k + 1;
+                            const size_t nown = own.numberOfTimeSteps();
+                            if (all.numberOfTimeSteps() != prefix + nown) r.fail("C10.continue.length", "run continued from report step " + std::to_string(n) + ": with base-run history " + std::to_string(all.numberOfTimeSteps()) + " ministeps, expected " + std::to_string(prefix) + " of the base run + " + std::to_string(nown) + " own");
+                            else for (const auto& key : own.keywordList()) {
+                                if (!a.hasKey(key) || !all.hasKey(key)) continue;
+                                const auto& g = all.get(key); const auto& ga = a.get(key); const auto& go = own.get(key);
+                                bool ok = g.size() == prefix + nown && (prefix == 0 || std::memcmp(g.data(), ga.data(), prefix * 4) == 0) && (nown == 0 || std::memcmp(g.data() + prefix, go.data(), nown * 4) == 0);
+                                if (!ok) { r.fail("C10.continue.value", "run continued from report step " + std::to_string(n) + ": " + key + " with base-run history is not the base run's first " + std::to_string(prefix) + " ministeps followed by the run's own " + std::to_string(nown)); break; }
+                                ++compared;
+                            }
+                            if (r.violations.empty() && !fmt && fs::exists("CONT.ESMRY") && fs::exists("BASE.ESMRY")) {
+                                EclIO::ExtESmry x("CONT.ESMRY", true); x.loadData();
+                                if (x.numberOfTimeSteps() != prefix + nown) r.fail("C10.continue.esmry_length", "CONT.ESMRY with base-run history holds " + std::to_string(x.numberOfTimeSteps()) + " ministeps, expected " + std::to_string(prefix + nown));
+                                else for (const auto& key : x.keywordList()) { if (!all.hasKey(key)) continue; const auto& g1 = x.get(key); const auto& g2 = all.get(key); if (g1.size() != g2.size() || std::memcmp(g1.data(), g2.data(), g1.size() * 4)) { r.fail("C10.continue.esmry_value", "CONT.ESMRY with base-run history differs from the legacy reader in " + key); break; } }
+                                ++r.counters["probe.continuation_esmry_chain_read"];
+                            }
+                            ++r.counters["probe.continuation_run_read_with_base_history"];
+                            sh.u64(static_cast<std::uint64_t>(n));
+                        }
+                    }
                     if (m.rptonly) ++r.counters["probe.rptonly"]; if (m.sumthin > 0) ++r.counters["probe.sumthin"];
                     sample["ministeps_written"] = static_cast<long long>(rec.rows.size()); sample["ministeps_in_file"] = static_cast<long long>(map.size()); sample["vectors"] = static_cast<long long>(a.keywordList().size());
                     sh.u64(map.size()); sh.u64(a.keywordList().size()); sh.u64(fmt); sh.u64(m.unifout);
